@@ -214,7 +214,7 @@ def run(tier, seed, replay=None):
                                         {"pattern": G.show(e), "word": list(w)}))
         # token header shapes
         shapes = _mk_shapes()
-        tlen = 6 if tier == "quick" else 8
+        tlen = 6 if tier == "quick" else 7
         jobs = []
         for name, (_, _, _, alpha) in shapes.items():
             # the first six letters exhaustively to length tlen, the whole alphabet to length tlen - 1
